@@ -317,7 +317,7 @@ def state_defect(mode, h):
     return None
 
 
-def query_round(mode, D, h, case, res, reg, truth=None, every_rank=False):
+def query_round(mode, D, h, case, res, reg, truth=None, every_rank=False, extra_xs=()):
     """One round of queries on a non-empty histogram object.  The answers are judged against `truth` = (lo, hi, total)
     — the true extremes and number of the values that went into the object, exact — when it is known, else against what
     the object reports.  Returns (bad, left_only): bad = (clause, detail) or None; left_only = the failure involves
@@ -329,7 +329,7 @@ def query_round(mode, D, h, case, res, reg, truth=None, every_rank=False):
             return ("state: " + state_defect(mode, h), {"reg": reg, "bins": [[float(v), int(f)] for v, f in h.bins][:8]}), False
         lo, hi, total = exact(h.min), exact(h.max), Fraction(sum(int(f) for _, f in h.bins))
     lo_f, hi_f = float(lo), float(hi)
-    xs_f = sorted(set(grid_points(h, case.get("grid", 16), lo_f, hi_f) + [float(x) for x in case.get("xs", [])]))
+    xs_f = sorted(set(grid_points(h, case.get("grid", 16), lo_f, hi_f) + [float(x) for x in case.get("xs", [])] + [float(x) for x in extra_xs]))
     qs_f = sorted(set(level_points(case.get("levels", 16)) + rank_levels(h) + outside_levels(h) + (all_rank_levels(h) if every_rank else [])
                       + [float(q) for q in case.get("qs", [])]))
     told = {"judged_against": "the inserted values" if truth is not None else "what the histogram reports",
@@ -466,11 +466,61 @@ class Truth:
         return (self.lo, self.hi, Fraction(self.total))
 
 
+# Calls the source refuses (`["rej", r, what, a, b]`).  The values are built when the call is made: nothing is shared between cases.
+REJ_VALUES = ("text", "complex", "object", "bytes", "dict", "empty-text")  # update(h, <this>): the cast refuses it
+#   (a sequence is NOT refused: numpy.float64((1, 2)) is an array — garbage in, outside the property)
+REJ_COUNTS = ("none", "text")  # update(h, v, <this>): `count <= 0` cannot be evaluated
+REJ_OPERANDS = ("none", "int", "float", "text", "list", "dict")  # h + <this>
+REJ_BULK = ("none", "int", "text", "text-array", "object-array")  # h.bulkload(<this>)
+
+
+def rej_token(what, tok):
+    import numpy
+
+    if what == "value":
+        return {"text": "abc", "complex": 1 + 2j, "object": object(), "bytes": b"x", "dict": {}, "empty-text": ""}[tok]
+    if what == "cnt":
+        return {"none": None, "text": "a"}[tok]
+    if what == "add":
+        return {"none": None, "int": 5, "float": 2.5, "text": "x", "list": [1, 2], "dict": {"bins": 1}}[tok]
+    return {"none": None, "int": 5, "text": "abc", "text-array": numpy.array(["a", "b"]), "object-array": numpy.array([object(), object()], dtype=object)}[tok]
+
+
+def refused_call(mode, D, h, what, a, b):
+    """Makes the call, catches what it raises.  Returns (name of the exception or None, the numeric value involved or None)."""
+    v = None
+    try:
+        if what == "count":
+            v = c13.vin(mode, a)
+            D.update(h, v, b)
+        elif what == "value":
+            D.update(h, rej_token(what, a), b)
+        elif what == "cnt":
+            v = c13.vin(mode, a)
+            D.update(h, v, rej_token(what, b))
+        elif what == "add":
+            h + rej_token(what, a)
+        elif what == "bulk":
+            h.bulkload(rej_token(what, a))
+        else:
+            raise InfraError("bad refused call %r" % (what,))
+    except InfraError:
+        raise
+    except Exception as e:
+        return type(e).__name__, v
+    return None, v
+
+
 def run_hseq_case(case):
     """A sequence on histogram *objects* (registers name objects; an object can have several names).
 
     `["new", r, cap]`, `["upd", r, v, c]` (plain `update()`), `["add", dst, a, b]` (`dst = a + b`; `a` and `b` keep naming
-    the operand objects, which are queried again afterwards), `["q", r]` (a round of count_at / quantile queries).
+    the operand objects, which are queried again afterwards), `["q", r]` (a round of count_at / quantile queries),
+    `["rej", r, what, a, b]` — a call the source REFUSES, the exception caught by the caller who carries on with the same
+    object: `update` with a count of zero or below (`what = "count"`: value `a`, count `b`), with a value that is no number
+    (`"value"`), with a count that cannot be compared (`"cnt"`), `h + <no histogram>` (`"add"`), `h.bulkload(<no array>)`
+    (`"bulk"`).  A refused call inserts nothing: the values that went into the object — what every later round is judged
+    against — are what they were, and the refused value joins the query points of every later round of that object.
     Every round is judged against the values that really went into the object — their true minimum, maximum and number,
     kept here, not read off the histogram — when that is known: for an object built by updates, and for the object a `+`
     returns.  An operand a `+` did not return is judged by what it reports itself (`min`, `max`, `count`) together with
@@ -484,6 +534,8 @@ def run_hseq_case(case):
     res.branches = {}
     res.hits = []
     mops, rounds = [], []
+    mexp = {}  # position in mops -> what the implementation answered to that operation when it was not "ok": ["err", <exception>]
+    probes = {}  # id(object) -> values of refused calls: query points of every later round
     left_fail = None
     with c13.Patched(mode) as D:
         objs = {}  # register -> object
@@ -533,8 +585,13 @@ def run_hseq_case(case):
                     mops.append(["add", op[1], op[2], op[3]])
                 elif kind == "bulk":
                     h = objs[op[1]]
-                    arr, tail, ins, lo_b, hi_b, path = c13.bulk_parts(mode, op[2], op[3], int(h._bin_count), c13.gen_const("distogram.bulk_factor", 5))
-                    h.bulkload(arr)
+                    arr, tail, ins, lo_b, hi_b, path = c13.bulk_parts(mode, op[2], "f8" if op[3] == "list" else op[3], int(h._bin_count), c13.gen_const("distogram.bulk_factor", 5))
+                    if op[3] == "list":
+                        # a plain Python list instead of an array (C14-F03: the bins went in, then `values.min()` raised)
+                        res.hits.append("hseq: bulkload of a plain list")
+                        h.bulkload(arr.tolist())
+                    else:
+                        h.bulkload(arr)
                     if truth.get(id(h)) is not None:
                         for v in arr.tolist():
                             truth[id(h)].put(v, 1)
@@ -551,6 +608,24 @@ def run_hseq_case(case):
                         wide.update([id(new), id(src)])
                     res.hits.append("hseq: dump() + load()")
                     mops.append(["dl", op[1], op[2]])
+                elif kind == "rej":
+                    h = objs[op[1]]
+                    err, v = refused_call(mode, D, h, op[2], op[3], op[4])
+                    res.hits.append("hseq: refused call (%s%s) -> %s" % (op[2], "" if op[2] != "count" else ": count %s" % ("0" if op[4] == 0 else "< 0"),
+                                                                    err or "ACCEPTED"))
+                    if v is not None:
+                        probes.setdefault(id(h), []).append(float(v))
+                        t0 = truth.get(id(h))
+                        res.hits.append("hseq: refused value %s" % ("on a histogram nothing was inserted into" if t0 is None or t0.lo is None else
+                                                                   "inside the range of the inserted values" if t0.lo <= exact(v) <= t0.hi else
+                                                                   "outside the range of the inserted values"))
+                    if err is None:
+                        # the implementation took what its contract refuses: nothing independent is known about the object any more
+                        truth[id(h)] = None
+                    if op[2] == "count":
+                        mops.append(["upd", op[1], c13.vwire(mode, v), c13.vwire(mode, op[4])])
+                        if err is not None:
+                            mexp[len(mops) - 1] = ["err", err]
                 elif kind == "q":
                     h = objs[op[1]]
                     t = truth.get(id(h))
@@ -565,9 +640,11 @@ def run_hseq_case(case):
                     n_items = len(res.items)
                     tr = t.triple() if t is not None and t.total > 0 else None
                     res.hits.append("hseq: round judged against %s" % ("the inserted values" if tr is not None else "the object's own reports"))
-                    bad, left_only = query_round(mode, D, h, case, res, op[1], tr, every_rank=True)
+                    bad, left_only = query_round(mode, D, h, case, res, op[1], tr, every_rank=True, extra_xs=probes.get(id(h), ()))
                     if bad is not None:
                         bad[1]["op"] = k
+                        if probes.get(id(h)):
+                            bad[1]["refused_values"] = probes[id(h)][:8]
                         if not left_only:
                             res.fail = bad
                             return res
@@ -583,12 +660,12 @@ def run_hseq_case(case):
             except InfraError:
                 raise
             except Exception as e:
-                res.fail = ("raised: %s on a histogram raised %s" % ({"upd": "update()", "add": "+", "new": "Distogram()", "q": "an estimator", "dl": "dump() / load()", "bulk": "bulkload()"}.get(kind, kind), type(e).__name__),
+                res.fail = ("raised: %s on a histogram raised %s" % ({"upd": "update()", "add": "+", "new": "Distogram()", "q": "an estimator", "dl": "dump() / load()", "bulk": "bulkload()", "rej": "a refused call"}.get(kind, kind), type(e).__name__),
                             {"error": repr(e)[:200], "op": k})
                 return res
     res.fail = left_fail
     if rounds:
-        res.hseq = ("C14 hseq " + wire.line(mode, mops), mops, rounds)
+        res.hseq = ("C14 hseq " + wire.line(mode, mops), mops, rounds, mexp)
     return res
 
 
@@ -615,7 +692,7 @@ def valid_hseq(c):
                 return False
             filled.add(alias[op[1]])
         elif k == "bulk":
-            if len(op) != 4 or op[1] not in regs or not isinstance(op[2], list) or not op[2] or len(op[2]) > 5000 or op[3] not in ("f8", "i8"):
+            if len(op) != 4 or op[1] not in regs or not isinstance(op[2], list) or not op[2] or len(op[2]) > 5000 or op[3] not in ("f8", "i8", "list"):
                 return False
             if not all(c13._valid_val(c["mode"], v) for v in op[2]) or (c["mode"] == "q" and len(set(map(repr, op[2]))) > 2 * 5):
                 return False
@@ -642,6 +719,29 @@ def valid_hseq(c):
         elif k == "q":
             if len(op) != 2 or op[1] not in regs:
                 return False
+        elif k == "rej":
+            if len(op) != 5 or op[1] not in regs:
+                return False
+            what, a, b = op[2:]
+            if what == "count":
+                if not c13._valid_val(c["mode"], a) or not isinstance(b, int) or isinstance(b, bool) or b > 0:
+                    return False
+            elif c["mode"] != "f":
+                return False  # in exact mode the cast is the identity: a value that is no number is not refused by it
+            elif what == "value":
+                if a not in REJ_VALUES or not isinstance(b, int) or isinstance(b, bool) or b < 1:
+                    return False
+            elif what == "cnt":
+                if not c13._valid_val(c["mode"], a) or b not in REJ_COUNTS:
+                    return False
+            elif what == "add":
+                if a not in REJ_OPERANDS or b != 0:
+                    return False
+            elif what == "bulk":
+                if a not in REJ_BULK or b != 0:
+                    return False
+            else:
+                return False
         else:
             return False
     for key in ("grid", "levels"):
@@ -657,7 +757,7 @@ def compare_hseq(ctx, c, r):
     """Correspondence of an object sequence: the model (Drv/C14.lean `hseq`) ran the same operations on its own objects —
     the faithful machine of Model/Distogram.lean, `+` in place or on a copy as the source says now — and answered the same
     rounds from its own state."""
-    line, mops, rounds = r.hseq
+    line, mops, rounds, mexp = r.hseq
     mo = ctx.model.batch([line])[0]
     if not mo.startswith("ok "):
         raise InfraError("model rejected %r -> %r" % (line[:300], mo))
@@ -666,11 +766,14 @@ def compare_hseq(ctx, c, r):
         raise InfraError("model answered %d of %d operations" % (len(mouts), len(mops)))
     mode = c["mode"]
     qi = 0
-    for op, out in zip(mops, mouts):
+    for i, (op, out) in enumerate(zip(mops, mouts)):
         if op[0] != "q":
-            if out != ["ok"]:
-                ctx.disagree(c, "ok", out, what="%s fails in the model (%r)" % (op[0], out))
+            want = mexp.get(i, ["ok"])
+            if out != want:
+                ctx.disagree(c, want, out, what="%s: the implementation answers %r, the model %r (operation %d of the model's sequence)" % (op[0], want, out, i))
                 return
+            if want != ["ok"]:
+                ctx.hit("hseq: refused call answered alike by the model (%s)" % want[1])
             continue
         k, (reg, _line, cs, rs, total, scale_q, xs, qs, skip) = rounds[qi]
         qi += 1
@@ -946,6 +1049,14 @@ def run_pseq_case(case):
                 left_fail = lf
             mops.append(["q", op[1], [float(p) for p in probes]])
             rounds.append((k, probes, below, above, len(nn)))
+        elif kind == "rej":
+            # `profile + <no profile>`: refused (whatever it raises), the register and every other one are what they were —
+            # the model is not told (its step for a refused call is the identity), the next rounds judge
+            try:
+                regs[op[1]][0] + {"none": None, "int": 5, "text": "x", "bins": [(1.0, 1)]}[op[2]]
+                res.hits = getattr(res, "hits", []) + ["pseq: + of something that is no profile (%s) -> ACCEPTED (the result is dropped)" % op[2]]
+            except Exception as e:
+                res.hits = getattr(res, "hits", []) + ["pseq: refused + (%s) -> %s" % (op[2], type(e).__name__)]
         else:
             try:
                 if kind != "copy":
@@ -991,6 +1102,9 @@ def valid_pseq(c):
             return False
         if op[0] == "q":
             if len(op) not in (2, 3) or op[1] not in have or (len(op) == 3 and op[2] not in ("ba", "ab", "at")):
+                return False
+        elif op[0] == "rej":
+            if len(op) != 3 or op[1] not in have or op[2] not in ("none", "int", "text", "bins"):
                 return False
         elif op[0] in ("add", "tadd"):
             if len(op) != 4 or op[2] not in have or op[3] not in have or not isinstance(op[1], int):
@@ -1303,6 +1417,9 @@ def evaluate(ctx, cases):
         ctx.hit("kind:" + kind)
         if kind in ("profile", "pseq", "tseq"):
             ctx.hit("family:" + c.get("family", kind + ":?"))
+        if kind == "pseq":
+            for k in getattr(r, "hits", []):
+                ctx.hit(k)
         if kind == "tseq":
             ctx.hit("tseq tables:" + c.get("pair", "random"))
             for k in getattr(r, "hits", []):
@@ -1602,6 +1719,9 @@ def seq_patterns(first):
         ("copy", [["copy", 2, 0], ["q", 2, first], ["add", 3, 0, 1], ["q", 3], ["add", 4, 2, 1], ["q", 4, first], ["q", 0]]),
         ("operand-after", [["q", 0, first], ["add", 2, 0, 1], ["q", 0], ["q", 2, first], ["q", 1]]),
         ("add-only", [["add", 2, 0, 1], ["q", 2, first], ["add", 3, 2, 2], ["q", 3]]),
+        # a `+` the source refuses (the right operand is no profile), caught: every register answers as before
+        ("refused-add", [["q", 0, first], ["rej", 0, "none"], ["q", 0, first], ["add", 2, 0, 1], ["rej", 2, "bins"], ["q", 2, first], ["rej", 1, "int"], ["q", 1], ["q", 0]]),
+        ("refused-add-first", [["rej", 0, "text"], ["q", 0, first], ["rej", 0, "none"], ["add", 2, 0, 1], ["q", 2]]),
     ]
 
 
@@ -1835,7 +1955,8 @@ def as_mode(case):
             return v
         f = Fraction(v)
         return f.numerator if f.denominator == 1 else [f.numerator, f.denominator]
-    case["prog"] = [[o[0], o[1], qv(o[2]), o[3]] if o[0] == "upd" else [o[0], o[1], [qv(v) for v in o[2]], o[3]] if o[0] == "bulk" else o
+    case["prog"] = [[o[0], o[1], qv(o[2]), o[3]] if o[0] == "upd" else [o[0], o[1], [qv(v) for v in o[2]], o[3]] if o[0] == "bulk" else
+                    [o[0], o[1], o[2], qv(o[3]), o[4]] if o[0] == "rej" and o[2] == "count" else o
                     for o in case["prog"]]
     return case
 
@@ -1978,7 +2099,7 @@ def hseq_bulk_cases(ctx):
     rng = ctx.rng
     for cap, n, span in ((8, 6, 10), (3, 12, 30), (2, 9, 9), (4, 60, 500), (8, 300, 4000), (50, 30, 30)):
         for where in ("empty", "after-lower", "after-higher", "inside"):
-            kind = rng.choice(["i8", "f8"])
+            kind = rng.choice(["i8", "f8", "list"])
             off = rng.choice([0, 0, -span, 1000, -7])
             vals = [float(off + rng.randint(0, span)) for _ in range(n)]
             if rng.random() < 0.5:
@@ -1991,6 +2112,59 @@ def hseq_bulk_cases(ctx):
             prog += [["upd", 0, max(vals + pre) + 3.0, 2], ["q", 0], ["new", 1, cap], ["upd", 1, min(vals + pre) - 1.0, 1], ["add", 2, 1, 0], ["q", 2], ["q", 0], ["q", 1]]
             yield as_mode({"kind": "hseq", "mode": "q" if (len(set(vals)) <= 10 and rng.random() < 0.3) else "f", "family": "hseq:bulk-" + where,
                            "grid": 8, "levels": 8, "prog": prog})
+
+
+REJECT_BASES = [
+    # (bin limit, accepted stream): untrimmed, trimmed (the extremes are no bin centres), a single value, zero as an extreme, negative
+    (8, [1.0, 2.0, 3.0, 4.0, 5.0, 6.0, 7.0, 8.0, 9.0, 10.0]), (8, [5.0, 2.0, 9.0]), (3, [4.0, 1.0, 7.0, 2.0, 9.0, 3.0, 6.0]), (2, [10.0, 20.0, 30.0, 40.0]),
+    (8, [5.0]), (8, [0.0, 3.0, 6.0]), (8, [-6.0, -3.0, 0.0]), (50, [-20.5, -3.25, -11.0, -7.5]), (8, []),
+]
+
+
+def hseq_reject_cases(ctx):
+    """Histories with **refused calls** between the accepted ones: `update` with a count of zero or below (the value far above /
+    far below / one float above / one float below / inside the observed range, on a bin centre, at an extreme, zero), with a value
+    that is no number, with a count that cannot be compared; `h + <no histogram>`; `h.bulkload(<no array>)`.  The caller catches
+    the exception and carries on: asked directly afterwards, after further accepted updates, through a `+` that reads the
+    operand's bounds, through dump() / load(), twice in a row, on an empty histogram that is filled afterwards."""
+    import math
+
+    rng = ctx.rng
+    for cap, base in REJECT_BASES:
+        lo, hi = (min(base), max(base)) if base else (0.0, 0.0)
+        mid = base[len(base) // 2] if base else 1.0
+        outside = [hi + 990.0, lo - 505.0, math.nextafter(hi, math.inf), math.nextafter(lo, -math.inf), hi + 0.5, lo - 0.5]
+        inside = [mid, lo, hi, (lo + hi) / 2]
+        values = outside + inside + ([0.0] if 0.0 not in outside + inside else [])
+        mk = [["new", 0, cap]] + [["upd", 0, v, 1] for v in base]
+        for i, v in enumerate(values):
+            cnt = (0, -1, -3, 0, -1000)[i % 5]
+            rej = ["rej", 0, "count", v, cnt]
+            inner = (lo + hi) / 2 if base else 1.0
+            pats = [
+                ("asked-before-and-after", mk + ([["q", 0]] if base else []) + [rej, ["q", 0]]),
+                ("asked-after", mk + [rej, ["q", 0]]),
+                ("then-accepted-updates", mk + [rej, ["upd", 0, inner, 2], ["q", 0], ["upd", 0, inner + 0.25, 1], ["q", 0]]),
+                ("first-call-on-the-object", [["new", 0, cap], rej] + mk[1:] + [["upd", 0, inner, 1], ["q", 0]]),
+                ("twice", mk + [rej, ["rej", 0, "count", values[(i + 1) % len(values)], -2], ["q", 0]]),
+                ("operand-of-a-sum", mk + [["new", 1, cap], ["upd", 1, inner, 1], rej, ["add", 2, 1, 0], ["q", 2], ["q", 0]]),
+                ("receiver-of-a-sum", mk + [["new", 1, cap], ["upd", 1, inner, 1], rej, ["add", 2, 0, 1], ["q", 2], ["q", 1]]),
+            ] + ([("dump-load", mk + [rej, ["dl", 1, 0], ["q", 1], ["q", 0]]),
+                  ("same-value-accepted-later", mk + [rej, ["q", 0], ["upd", 0, v, 1], ["q", 0]])] if base else [])
+            for name, prog in pats:
+                if i >= 6 and name not in ("asked-after", "then-accepted-updates") and rng.random() < 0.6:
+                    continue  # values inside the range: the leak-prone patterns always, the others sampled
+                exact_ok = abs(v) < 1e6
+                yield as_mode({"kind": "hseq", "mode": "q" if exact_ok and rng.random() < 0.25 else "f", "family": "hseq:refused-count-" + name,
+                               "grid": 4, "levels": 4, "prog": [list(o) for o in prog]})
+        # arguments of the wrong kind (float mode: the cast is what refuses a value that is no number)
+        toks = [["rej", 0, "value", t, rng.choice([1, 3])] for t in REJ_VALUES] + [["rej", 0, "cnt", rng.choice(values), t] for t in REJ_COUNTS] \
+            + [["rej", 0, "add", t, 0] for t in REJ_OPERANDS] + [["rej", 0, "bulk", t, 0] for t in REJ_BULK]
+        for rej in toks:
+            yield {"kind": "hseq", "mode": "f", "family": "hseq:refused-" + rej[2], "grid": 4, "levels": 4,
+                   "prog": mk + ([["q", 0]] if base and rng.random() < 0.5 else []) + [rej, ["upd", 0, mid, 1], ["q", 0]]}
+        yield {"kind": "hseq", "mode": "f", "family": "hseq:refused-mixed", "grid": 4, "levels": 4,
+               "prog": mk + [list(t) for t in rng.sample(toks, 5)] + [["rej", 0, "count", hi + 7.0, 0], ["upd", 0, mid, 1], ["q", 0]]}
 
 
 def random_hseq_case(ctx):
@@ -2013,6 +2187,19 @@ def random_hseq_case(ctx):
             filled.add(alias[r])
     for _ in range(rng.choice([2, 4, 8, 14])):
         x = rng.random()
+        if rng.random() < 0.15:
+            # a refused call in between: any value, in or out of the range; in float mode also arguments of the wrong kind
+            r = rng.choice(names)
+            y = rng.random()
+            if y < 0.7 or mode == "q":
+                v = rng.choice(pool) if rng.random() < 0.3 else rng.choice([min(pool) - rng.choice([1, 0.5, 100]), max(pool) + rng.choice([1, 0.25, 100])])
+                prog.append(["rej", r, "count", v, rng.choice([0, 0, -1, -7])])
+            elif y < 0.8:
+                prog.append(["rej", r, "value", rng.choice(REJ_VALUES), 1])
+            elif y < 0.9:
+                prog.append(["rej", r, "add", rng.choice(REJ_OPERANDS), 0])
+            else:
+                prog.append(["rej", r, "bulk", rng.choice(REJ_BULK), 0])
         if x < 0.4:
             prog.append(["q", rng.choice(names)])
         elif x < 0.7:
@@ -2026,7 +2213,7 @@ def random_hseq_case(ctx):
             vals = [rng.choice(pool) for _ in range(k)]
             if mode == "q" and len(set(vals)) > 10:
                 continue
-            prog.append(["bulk", r, vals, "f8"])
+            prog.append(["bulk", r, vals, rng.choice(["f8", "f8", "list"])])
             filled.add(alias[r])
         elif x < 0.8 and max(names) < 7:
             src = rng.choice(names)
@@ -2087,7 +2274,7 @@ def run(ctx):
             ctx.hit("corpus:fixed-finding-witness")
     evaluate(ctx, [dict(c) for c in BOUNDARY])
     # histogram objects: plain update() streams in every order, judged against the inserted values; operands after a `+`
-    hs = list(hseq_stream_cases(ctx)) + list(hseq_exact_hit_cases(ctx)) + list(hseq_add_cases(ctx)) + list(hseq_bulk_cases(ctx))
+    hs = list(hseq_reject_cases(ctx)) + list(hseq_stream_cases(ctx)) + list(hseq_exact_hit_cases(ctx)) + list(hseq_add_cases(ctx)) + list(hseq_bulk_cases(ctx))
     ctx.note("histogram_object_sequence_cases", len(hs))
     for i in range(0, len(hs), 80):
         if ctx.violations:
